@@ -147,6 +147,10 @@ var jobTexts = []string{
 	"for 2\nj for 2\n dat j, MINDISTANCE\nrof\nrof\n",
 	"dat 1/0\n",
 	"x equ y\ny equ x\ndat x\n",
+	// EQU names defined through several others, used as FOR counts (the order in which the assembler resolves them must not matter)
+	"step equ 2\nrows equ 3\ncells equ rows*step\npad equ cells+rows-step\ni for pad\ndat #i, #cells\nrof\nend\n",
+	"a equ 1\nb equ a+1\nc equ a+b\nd equ a+b+c\nk for d-c\n dat k, d\nrof\n",
+	"p equ 2\nq equ p+1\nr equ q+p\ns equ r+q+p\nfor s%4\n nop p, s\nrof\n jmp r-q, <s\n",
 	";assert 0\ndat 0\n",
 	";assert CORESIZE-CORESIZE\nmov 0, 1\n",
 	";assert MAXPROCESSES > 100000\nmov 0, 1\n",
